@@ -15,7 +15,7 @@ W=$(mktemp -d /dev/shm/vpfuzz.XXXXXX)
 mkdir -p "$W/corpus" "$W/art" "$W/tmp"
 export VP_FZ_DIR="$W/tmp"
 cp corpus-seed/$T/* "$W/corpus/" 2>/dev/null
-/verif/harness/target-fuzz/x86_64-unknown-linux-gnu/release/$T "$W/corpus" -runs=$RUNS -seed=$SEED -max_len=${VP_FUZZ_MAXLEN:-4096} -len_control=0 -timeout=10 -rss_limit_mb=12288 -malloc_limit_mb=1000000 -artifact_prefix="$W/art/" >"$W/log" 2>&1
+/verif/harness/target-fuzz/x86_64-unknown-linux-gnu/release/$T "$W/corpus" -runs=$RUNS -seed=$SEED -max_len=${VP_FUZZ_MAXLEN:-4096} -len_control=0 -timeout=25 -rss_limit_mb=12288 -malloc_limit_mb=1000000 -artifact_prefix="$W/art/" >"$W/log" 2>&1
 rc=$?
 execs=$(grep -o "Done [0-9]* runs" "$W/log" | grep -o "[0-9]*" | head -1)
 cov=$(grep -o "cov: [0-9]*" "$W/log" | tail -1)
@@ -25,6 +25,13 @@ status=0
 for a in "$W"/art/*; do
   [ -f "$a" ] || continue
   # resident memory above the 12 GiB budget is a resource report, not a property violation
+  # a unit that ran into the per-unit time limit is re-run alone with a generous limit: only a unit that still does
+  # not finish is a hang; a slow moment of the machine is not
+  case "$(basename "$a")" in timeout-*)
+    if VP_FZ_DIR="$W/tmp" /verif/harness/target-fuzz/x86_64-unknown-linux-gnu/release/$T -timeout=180 "$a" >"$W/replay.log" 2>&1; then
+      echo "[$PROP] unit $(basename "$a") exceeded the time limit during the campaign but finishes alone: not a hang"; continue
+    fi;;
+  esac
   case "$(basename "$a")" in oom-*) echo "[$PROP] libFuzzer rss limit reached on $(basename "$a"): inconclusive"; [ $status -eq 0 ] && status=2; continue;; esac
   mkdir -p /verif/replays
   out="/verif/replays/$PROP-fuzz-$T-$(basename "$a")"
